@@ -127,3 +127,45 @@ def incompressible(rng, n, prefix=b'--'):
                  [bytes([c]) for c in b'0123456789abcdefghijklmnopqrstuvwxyz!#%(){}[]<>+=/*:;.,~_ '])
     body = bytes(rng.choice(pool) for _ in range(max(0, n - len(prefix))))
     return (prefix + body)[:n]
+
+
+def bytes_lua(rng, nlines=12, crlf=False):
+    """Valid Lua lines that carry arbitrary P8SCII bytes in comments, quoted strings, long strings and identifiers.
+
+    Avoids (a) lines that read as a .p8 `__section__` header, (b) numeric-escape spellings (C06 owns those):
+    bytes 0, 14, 15 inside quoted strings are never followed by a digit."""
+    eol = b'\r\n' if crlf else b'\n'
+    out = []
+    for _ in range(nlines):
+        k = rng.randrange(5)
+        if k == 0:
+            body = bytes(rng.choice([b for b in range(256) if b not in (10, 13)]) for _ in range(rng.randint(0, 40)))
+            out.append(b'--' + body)
+        elif k == 1:
+            q = rng.choice(b'"\'')
+            s = bytearray()
+            prev_special = False
+            for _ in range(rng.randint(0, 40)):
+                b = rng.randrange(256)
+                if prev_special and 48 <= b <= 57:
+                    b = 65
+                if b == q or b == 92:
+                    s += bytes((92, b))
+                elif b == 10:
+                    s += b'\\n'
+                elif b == 13:
+                    s += b'\\r'
+                else:
+                    s.append(b)
+                prev_special = b in (0, 14, 15)
+            out.append(b's=' + bytes((q,)) + bytes(s) + bytes((q,)))
+        elif k == 2:
+            body = bytes(rng.choice([b for b in range(256) if b not in (93, 13, 10)]) for _ in range(rng.randint(0, 30)))
+            lvl = b'=' * rng.randrange(3)
+            out.append(b't=[' + lvl + b'[' + body + b']' + lvl + b']')
+        elif k == 3:
+            name = bytes(rng.choice(range(128, 256)) for _ in range(rng.randint(1, 4))) + rng.choice((b'', b'x', b'_1'))
+            out.append(name + b'=' + b'%d' % rng.randrange(100))
+        else:
+            out.append(rng.choice(_NAMES[:10]) + b'=' + rng.choice(_CALLS) + b'(%d)' % rng.randrange(99))
+    return eol.join(out) + eol
